@@ -7,8 +7,8 @@ HOOK_COMMITS = ["28348bd"]
 
 CHECKS = {
  "C01": dict(engine="eng_parse", ref="DESIGN.md §9 C01, §4, §5",
-   technique="runtime monitoring: exact-rounding oracle observing parse_float on boundary-directed workloads in 5-8 feature configurations x 2 profiles; offline Python re-check of a sampled event log",
-   text="Exploration with a deciding oracle: millions of f64 inputs constructed at rounding boundaries (every binade, ties, +-epsilon at depths up to 10^6 digits, cut-offs, range ends, 19-digit ties, seams, continued-fraction worst cases) are executed by the real code in every feature configuration and each result is judged by an independent exact decision procedure; hook events prove which internal tier decided each case and the run fails closed if a tier was never observed. Not a proof: 'held on the executions counted in the evidence'.",
+   technique="runtime monitoring: exact-rounding oracle observing parse_float on boundary-directed workloads in 5-8 feature configurations x 2 profiles; offline Python re-check of a sampled event log; platform differential of the same inputs executed by Miri for a 32-bit target (32-bit limbs)",
+   text="Exploration with a deciding oracle: millions of f64 inputs constructed at rounding boundaries (every binade, ties, +-epsilon at depths up to 10^6 digits, cut-offs, range ends and near-halfway patterns beyond them, 19-digit ties, seams incl. the disguised fast path's overflow limits, continued-fraction worst cases for long and short significands, slow-path operands straddling a limb boundary) are executed by the real code in every feature configuration and each result is judged by an independent exact decision procedure; hook events prove which internal tier decided each case and the run fails closed if a tier was never observed. Not a proof: 'held on the executions counted in the evidence'.",
    note="Trusts the harness oracle (cross-checked against Python integers on a sample of every run, Rust std on disagreement, seeded defects) and the x86_64/64-bit-limb build."),
  "C02": dict(engine="eng_parse", ref="DESIGN.md §9 C02",
    technique="runtime monitoring: exact-rounding oracle on f32 boundary workloads incl. double-rounding probes and short-significand worst cases, all configurations; bounded-exhaustive sweep of every significand below 2^32 at exponents -22..22 against an integer oracle (strided in quick, complete in thorough); offline Python re-check",
@@ -43,8 +43,8 @@ CHECKS = {
    text="Exploration: for each base value every re-splitting is executed in all configurations; distinct internal (mantissa, exponent, truncated) routes per value are counted from hooks to show the spellings really took different paths; 1/8 of the classes are anchored to the exact oracle.",
    note="Metamorphic; absolute correctness comes from the anchor sample and C01/C02."),
  "C08": dict(engine="eng_mem", ref="DESIGN.md §9 C08, §6",
-   technique="sanitizers / UB interpreter: Miri (Stacked Borrows and Tree Borrows, optimised and debug-assertion profiles), AddressSanitizer and valgrind memcheck watching parse_float on arbitrary bytes; differential against the native run",
-   text="Exploration under memory monitors: arbitrary byte strings (every byte value, lengths around every cut-off, any exponent) plus valid inputs aimed at each unchecked-index site are executed under Miri in both aliasing models and under ASan (valgrind in thorough); any Undefined Behaviour / sanitizer report with a frame in the crate is a violation, a clean panic is allowed and counted. Evidence lists executions per tool and (thorough) which lines with unsafe operations the driver executed.",
+   technique="sanitizers / UB interpreter: Miri (Stacked Borrows and Tree Borrows, optimised and debug-assertion profiles; also for an i686 target = 32-bit limbs), AddressSanitizer on a generated workload and on a coverage-guided libFuzzer session, valgrind memcheck, all watching parse_float on arbitrary bytes; differential against the native run",
+   text="Exploration under memory monitors: arbitrary byte strings (every byte value, lengths around every cut-off, any exponent) plus valid inputs aimed at each unchecked-index site are executed under Miri in both aliasing models (and on a 32-bit target) and under ASan (valgrind in thorough), and a coverage-guided libFuzzer+ASan session (25 s x 16 workers in quick, ~17 min in thorough; clean panics caught inside the target) searches for byte / length / exponent coincidences no fixed generator aims at; any Undefined Behaviour / sanitizer report with a frame in the crate is a violation, a clean panic is allowed and counted. Evidence lists executions per tool and (thorough) which lines with unsafe operations the driver executed.",
    note="Decided for the paths reached, under each tool's model; Miri executes 10^3-10^5 cases, ASan/valgrind 10^6+ but are blind to intra-object overflow."),
  "C11": dict(engine="eng_moderate", ref="DESIGN.md §9 C11",
    technique="runtime monitoring: exact interval oracle on direct calls of the extended-precision stage (Eisel-Lemire / Bellerophon) over number-theoretic worst cases, boundary prefixes, ties and table/early-out limits",
@@ -52,11 +52,11 @@ CHECKS = {
    note="Same oracle as C01; truncated is combined only with 1 <= w <= u64::MAX-1."),
  "C12": dict(engine="eng_bigint", ref="DESIGN.md §9 C12",
    technique="runtime monitoring: reference-model monitor (independent big naturals) after every big-integer operation on both storage back-ends, incl. success/failure against the capacity; Miri slice compared with the native run",
-   text="Exploration: millions of single operations with explicit operands sized to land at 60..64 limbs, all powers 0..1720, all shift counts, sticky bit at every depth, every pair of 1..3-limb vectors over the boundary alphabet {0,1,2,MAX-1,MAX,2^63} (bounded-exhaustive); each result (value, length, Some/None/panic) compared with schoolbook reference arithmetic, and len <= capacity asserted after every operation; operands are built by try_from, by Clone (tight heap allocation) or by new + extend; shift counts also far beyond the capacity (2^8, 2^16, 2^32 + r: must be refused); a lean slice runs under Miri SB/TB.",
+   text="Exploration: millions of single operations with explicit operands sized to land at 60..64 limbs, all powers 0..1720, all shift counts, sticky bit at every depth, every pair of 1..3-limb vectors over the boundary alphabet {0,1,2,MAX-1,MAX,2^63} (bounded-exhaustive); each result (value, length, Some/None/panic) compared with schoolbook reference arithmetic, and len <= capacity asserted after every operation; operands are built by try_from, by Clone (tight heap allocation) or by new + extend; shift counts also far beyond the capacity (2^8, 2^16, 2^32 + r: must be refused); two-island operands (long interior runs of zero limbs); the stack below every fourth operation is poisoned so that never-written limbs show natively; a lean slice runs under Miri SB/TB.",
    note="Reference naturals are the harness' own (also used by the value oracle, cross-checked against Python)."),
  "C13": dict(engine="eng_bigint", ref="DESIGN.md §9 C13",
    technique="runtime monitoring: executable sequence model checked after every operation of random operation histories on StackVec / HeapVec, natively and under Miri (Stacked + Tree Borrows)",
-   text="Exploration over histories: many short histories (20..400 operations) that fill to capacity, hover and drain, plus every sequence of 4 (quick) / 5 (thorough) capacity-relevant operations from 8 start states (small-scope exhaustive); length, contents, return values, failed-operation-changes-nothing (incl. absurd resize / extend requests that look small after a narrowing cast), numeric ordering are compared with a plain-sequence model after every step, histories carry on with clones; the same histories run under Miri where reads of never-written slots or out-of-range writes are Undefined Behaviour reports.",
+   text="Exploration over histories: many short histories (20..400 operations) that fill to capacity, hover and drain, plus every sequence of 4 (quick) / 5 (thorough) capacity-relevant operations from 8 start states (small-scope exhaustive); length, contents, return values, failed-operation-changes-nothing (incl. absurd resize / extend requests that look small after a narrowing cast), numeric ordering are compared with a plain-sequence model after every step, histories carry on with clones, and a second vector exercises clone_from (both directions), swap and every comparison operator; the same histories run under Miri where reads of never-written slots or out-of-range writes are Undefined Behaviour reports.",
    note="Numeric ordering judged on normalized vectors; heap histories stay <= 62 limbs in debug-assertion builds."),
  "C14": dict(engine="eng_consts", ref="DESIGN.md §9 C14",
    technique="runtime monitoring, complete enumeration: the running program of each configuration dumps every power constant it sees (table, u64::pow, std powf, bundled libm); an offline Python checker recomputes each definition",
@@ -68,11 +68,11 @@ CHECKS = {
    note="All Rust heap allocation goes through the global allocator."),
  "C16": dict(engine="eng_pure", ref="DESIGN.md §9 C16",
    technique="runtime monitoring: differential monitor over iterator shapes / buffer addresses / stack poisoning / call history / concurrent callers; Miri data-race and uninitialised-read detection on sampled schedules; ThreadSanitizer in thorough",
-   text="Exploration: each input is parsed through 14 fused iterator shapes (chains of exact and inexact pieces, filter, VecDeque, rev, skip/take/step_by, flat_map, peekable, hand-written non-contiguous), from differently aligned buffers, after stack poisoning and other parses, and from 3..64 threads; results and hook traces must equal the plain sequential slice-iterator run; Miri runs the same engine with several scheduler seeds, TSan in thorough.",
+   text="Exploration: each input is parsed through 14 fused iterator shapes (chains of exact and inexact pieces, filter, VecDeque, rev, skip/take/step_by, flat_map, peekable, hand-written non-contiguous, items sharing addresses through a static digit table or repeat(&ZERO)), from differently aligned buffers, after stack poisoning and other parses, and from 3..64 threads; results and hook traces must equal the plain sequential slice-iterator run; Miri runs the same engine with several scheduler seeds, TSan in thorough.",
    note="Schedules are sampled, not enumerated."),
  "C17": dict(engine="eng_float", ref="DESIGN.md §9 C17",
    technique="runtime monitoring, complete enumeration for f32: all 2^32 bit patterns (and structured + random f64 patterns) checked against IEEE-754 field extraction and an exact hardware recomputation of mantissa x 2^exponent",
-   text="Exhaustive for f32 (flag set by the run when all shards completed), sampled for f64: is_denormal, exponent, mantissa, to/from bits, b/bh, extended_to_float against an oracle written from the standard.",
+   text="Exhaustive for f32 (flag set by the run when all shards completed), sampled for f64 (every biased exponent x every single fraction bit, run of ones, pair of bits and complement, plus random): is_denormal, exponent, mantissa, to/from bits, b/bh, extended_to_float against an oracle written from the standard; also in a build with -C target-cpu=native (cfg(target_feature) variants).",
    note="x86_64 SSE2 semantics."),
  "C18": dict(engine="eng_float", ref="DESIGN.md §9 C18",
    technique="runtime monitoring: independent exact integer rounding as oracle for round()/round_nearest_tie_even/round_down + extended_to_float over every exponent and all guard-bit classes; mask helpers for all widths",
